@@ -3,7 +3,7 @@ import ast
 from fractions import Fraction as F
 from .. import alg, tables
 from ..alg import Rat, C
-from ..model import AnalysisError, ModuleConst
+from ..model import AnalysisError, ModuleConst, stmt_text
 from ..symval import Evaluator, Tup, Mat, NONE, Bool
 from ..symcheck import Oracle, check_equal, compare_values, show, flatten
 from ..rules import where
@@ -347,10 +347,44 @@ def _run(repo, rep):
     table_rules(repo, rep)
 
 
+def exact_symmetry_guard_rule(repo, rep):
+    """a covariance that comes out of a rotation (R^T V R, what vcv_cart2local returns and vcv_local2cart is then given: the round trip of the
+    property) is symmetric only to the last bit.  A raising test that demands bit-exact symmetry of an argument (`array_equal(v, v.T)`,
+    `(v != v.T).any()`) refuses such matrices: valid input.  One instance per covariance function."""
+    def is_transpose_of(a, b):
+        ta, tb = stmt_text(a), stmt_text(b)
+        return tb in (ta + '.T', ta + '.transpose()', 'np.transpose(%s)' % ta, 'transpose(%s)' % ta, 'numpy.transpose(%s)' % ta)
+
+    for q in ('vcv_local2cart', 'vcv_cart2local', 'error_ellipse', 'relative_error'):
+        f = repo.func('geodepy.statistics', q)
+        key = 'R-GUARD::geodepy/statistics.py::%s::bit-exact-symmetry' % q
+        hit = None
+        for n in ast.walk(f.node):
+            if not isinstance(n, ast.If) or not any(isinstance(x, ast.Raise) for st in n.body + n.orelse for x in ast.walk(st)):
+                continue
+            for c in ast.walk(n.test):
+                if isinstance(c, ast.Call) and (getattr(c.func, 'attr', '') or getattr(c.func, 'id', '')) in ('array_equal', 'array_equiv') and len(c.args) == 2 \
+                        and (is_transpose_of(c.args[0], c.args[1]) or is_transpose_of(c.args[1], c.args[0])):
+                    hit = (n, c)
+                if isinstance(c, ast.Compare) and len(c.ops) == 1 and isinstance(c.ops[0], (ast.Eq, ast.NotEq)) \
+                        and (is_transpose_of(c.left, c.comparators[0]) or is_transpose_of(c.comparators[0], c.left)):
+                    hit = (n, c)
+        if hit:
+            rep.violated('R-GUARD', key, where(f, hit[0]), '%s raises unless `%s` holds bit for bit: a covariance that was itself computed by a rotation (the local matrix vcv_cart2local '
+                         'returns - the round trip cart -> local -> cart of the property) is symmetric only to about one unit in the last place and is refused' % (q, stmt_text(hit[1])[:70]),
+                         expected='no exact float comparison in front of a raise (a tolerance, or no test)', actual=stmt_text(hit[0].test)[:100])
+        else:
+            rep.holds('R-GUARD', key, where(f, f.node), 'no raise depends on bit-exact symmetry of a covariance argument', work=False)
+
+
 def run(repo, rep):
     from ..symval import INPLACE_EVENTS
     del INPLACE_EVENTS[:]
     _run(repo, rep)
+    # the coverage factor, the ellipse and the rotations depend on their arguments only: no table, iterator or flag at module level is
+    # consumed or updated by a call
+    common.state_rule(repo, rep, [('geodepy.statistics', q_) for q_ in ('k_val95', 'error_ellipse', 'relative_error', 'vcv_local2cart', 'vcv_cart2local', 'rotation_matrix')])
+    exact_symmetry_guard_rule(repo, rep)
     common.partial_call_rule(repo, rep, [('geodepy.statistics', 'vcv_local2cart'), ('geodepy.statistics', 'vcv_cart2local'), ('geodepy.statistics', 'error_ellipse'), ('geodepy.statistics', 'relative_error')], 'the covariance matrices')
     # in-place array updates met while evaluating the functions above (element type follows the caller's numbers)
     common.dtype_rule(repo, rep, [('geodepy.statistics', 'vcv_local2cart'), ('geodepy.statistics', 'vcv_cart2local'), ('geodepy.statistics', 'rotation_matrix'), ('geodepy.statistics', 'error_ellipse'), ('geodepy.statistics', 'relative_error'),
